@@ -184,6 +184,65 @@ type tableXML struct {
 	Rows      []tableRowXML `xml:"table-row"`
 }
 
+// UnmarshalXML reads the columns and rows of a table in document order. ODF lets
+// a table group them: rows inside <table:table-header-rows> (what LibreOffice
+// writes for the "repeat heading" rows of a table), <table:table-rows> and
+// <table:table-row-group>, columns inside <table:table-columns>,
+// <table:table-header-columns> and <table:table-column-group>. The grouping says
+// nothing about the content, so grouped rows and columns count like direct ones.
+func (t *tableXML) UnmarshalXML(d *xml.Decoder, start xml.StartElement) error {
+	t.XMLName = start.Name
+	for _, attr := range start.Attr {
+		switch attr.Name.Local {
+		case "name":
+			if t.Name == "" {
+				t.Name = attr.Value
+			}
+		case "style-name":
+			if t.StyleName == "" {
+				t.StyleName = attr.Value
+			}
+		}
+	}
+
+	depth := 0 // open grouping elements
+	for {
+		tok, err := d.Token()
+		if err != nil {
+			return err
+		}
+		switch el := tok.(type) {
+		case xml.StartElement:
+			switch el.Name.Local {
+			case "table-column":
+				var col tableColXML
+				if err := d.DecodeElement(&col, &el); err != nil {
+					return err
+				}
+				t.Columns = append(t.Columns, col)
+			case "table-row":
+				var row tableRowXML
+				if err := d.DecodeElement(&row, &el); err != nil {
+					return err
+				}
+				t.Rows = append(t.Rows, row)
+			case "table-header-rows", "table-rows", "table-row-group",
+				"table-columns", "table-header-columns", "table-column-group":
+				depth++
+			default:
+				if err := d.Skip(); err != nil {
+					return err
+				}
+			}
+		case xml.EndElement:
+			if depth == 0 {
+				return nil
+			}
+			depth--
+		}
+	}
+}
+
 // tableColXML represents a table column definition.
 type tableColXML struct {
 	XMLName        xml.Name `xml:"table-column"`
